@@ -3,12 +3,12 @@
 # worktree of /repo's HEAD (under /tmp, removed afterwards) and points the checks at it with VERIF_REPO,
 # so /repo itself stays untouched while a batch of seeds is evaluated.  Writes seeded/<id>/result.txt.
 id=$1; shift
-cd /verif || exit 3
+V=$(cd "$(dirname "$0")/.." && pwd); cd $V || exit 3
 props="$@"; [ -z "$props" ] && props=$(cat seeded/$id/props.txt)
 wt=$(mktemp -d /tmp/seedrun.XXXXXX); rmdir $wt
 git -C /repo worktree add --detach $wt HEAD >/dev/null 2>&1 || exit 3
 trap 'git -C /repo worktree remove --force '$wt' >/dev/null 2>&1' EXIT
-git -C $wt apply /verif/seeded/$id/patch.diff || { echo "DOES-NOT-APPLY" > seeded/$id/result.txt; exit 3; }
+git -C $wt apply $V/seeded/$id/patch.diff || { echo "DOES-NOT-APPLY" > seeded/$id/result.txt; exit 3; }
 rc=0; : > seeded/$id/result.txt
 for p in $props; do
   VERIF_REPO=$wt bin/check $p --no-evidence > $wt.log 2>&1; r=$?
